@@ -31,8 +31,8 @@ CLAIMED["C03"] = dict(
         "the fragment `stable` (Spec/Stable.v: builtin classes, data classes, unions | and ^ of those, negations, constrained scalars "
         "and Optional-style rules over a stable origin, list / set / frozenset / variable-length tuple of stable element types, "
         "fixed-length Tuple[T1..Tn] and Dict[K, V] of stable types, checking constraints), every input, every options record with the 'throw' policies and every nesting level, parsing the "
-        "result again returns exactly that result and leaves the context untouched, provided the result of every exclusive-or in the type is an exact "
-        "instance of one of its arguments (trivially true of types without ^; the bool-for-int leak of int([True]) that an earlier version had to assume away was repaired in /repo: dd6794a); C03_results_are_typed derives the exact classes of "
+        "result again returns exactly that result and leaves the context untouched, with no assumption on the result (an earlier version had to assume away the bool-for-int leak of int([True]); it showed up as a "
+        "C15 violation and was repaired in /repo: dd6794a); C03_results_are_typed derives the exact classes of "
         "results from the first parse (by induction on the knot of the parse calculus, three stages of unions and set rebuilding "
         "included). Outside the fragment (&, unions of constrained types, lax constraints inside "
         "types, exclude / preserve) idempotence is carried by the parse correspondence and the idempotence oracle, with six listed findings.",
